@@ -469,7 +469,7 @@ def generate_record(seed, tier, opts):
     if opts.get("directed"):
         from poolsim import directed
 
-        cfg = directed.config(opts["directed"], rng, tier)
+        cfg = directed.config(opts["directed"], rng, tier, seed)
     elif rng.random() < 0.2 and not opts.get("flow_only"):
         cfg = workload.gen_single_config(rng, tier, opts)
     else:
